@@ -18,14 +18,16 @@
         the `_init` forms (every Init object qualifies) and the `_reset` forms (Reset after any history),
         `parseAllURIParams_ne_lbug` (`plClean`), `parseAllURIHdrs_ne_lbug` (`hlClean`) for EVERY option word
         (`afa_pl_guard`, `afa_hl_guard`), `afa_lists_qualify` (new and Reset lists).
+        Chunk schedules of the two lists: `parseAllURIParams_schedule_ne_lbug`, `…_schedule_end_ne_lbug` (end-of-input
+        option at the last call), `parseAllURIHdrs_schedule_ne_lbug`, `…_schedule_end_ne_lbug`.
       * tests showing the hypotheses are not redundant (outside the domain the model-only exit IS taken).
   (C) C06. `parseSIPMsg_eq_msgBody` (the link: first line OK at `o1`, header block OK at `h` ⇒ ParseSIPMsg is
       `msgBody` entered at `h`), `parseSIPMsg_ok_path` (converse for an OK verdict), `parseSIPMsg_clen_framing`
       (OK iff `h + n ≤ len`, offset `h + n`, body `[h, h+n)`, else MoreBytes at `h`), `parseSIPMsg_ok_clen`
       (the property's words, from the returned object alone).
-  NOT proved here: chunk schedules for the two URI lists (only one call; the result is clean again by the existing
-  `parseAllURIParams_post` / `parseAllURIHdrs_post` when the end-of-input option is off); (C) is for an object in state
-  `init` (new / Init / Reset), not for a call resumed in the middle of the header block.
+  NOT proved here: (C) is for an object in state `init` (new / Init / Reset), not for a call resumed in the middle of
+  the header block; for a header list / URI list with garbage in its UNUSED slots (outside the domain, no API call
+  produces one) the model-only exit is reachable — see the tests at the end.
 -/
 import Sipsp.Proofs.MsgL1
 import Sipsp.Proofs.MsgL2
@@ -1220,6 +1222,90 @@ theorem parseSIPMsg_schedule_ne_lbug_init (flags : Nat) (o : Nat) (m0 : PSIPMsg)
       (m0.init len (hdrs.map fun _ => Array.replicate kh {}) (cts.map fun _ => Array.replicate kc {})) l).2.1 ≠ .lbug :=
   parseSIPMsg_schedule_ne_lbug flags o _ l hg hfit hne
     (fun b hb => ⟨msgOK2_init b o (ho b hb) m0 len kh kc hdrs cts, MsgSafe_init b o (ho b hb) m0 len kh kc hdrs cts⟩)
+
+/-! ### the two URI lists under every chunk schedule -/
+
+theorem afa_oneShotRun_verdict {σ : Type} (P : Parser σ) (V : Err → Prop) (o : Nat) (st : σ) (l : List Buf)
+    (hV : ∀ b ∈ l, V (P b o st).2.1) (hm : V .moreBytes) : V (oneShotRun P o st l).2.1 := by
+  induction l with
+  | nil => exact hm
+  | cons b rest ih =>
+    cases rest with
+    | nil => exact hV b List.mem_cons_self
+    | cons b' rest' =>
+      simp only [oneShotRun]
+      have hb := hV b List.mem_cons_self
+      rcases hp : P b o st with ⟨o1, e1, s1⟩
+      rw [hp] at hb
+      cases e1 <;> simp only <;> first | exact hb | exact ih (fun x hx => hV x (List.mem_cons_of_mem _ hx))
+
+theorem afa_growing_size {l : List Buf} (hg : Growing l) {b0 : Buf} (h0 : l.head? = some b0) :
+    ∀ x ∈ l, b0.size ≤ x.size := by
+  cases l with
+  | nil => cases h0
+  | cons b rest =>
+    simp only [List.head?_cons, Option.some.injEq] at h0
+    subst h0
+    intro x hx
+    rcases List.mem_cons.1 hx with rfl | hx
+    · exact Nat.le_refl _
+    · obtain ⟨s, rfl⟩ := growing_ext hg x hx
+      rw [Array.size_append]; omega
+
+/-- **ParseAllURIParams, every chunk schedule (option off)**: the chain of resumed calls never ends with the
+    model-only verdict (hypotheses of `parseAllURIParams_schedule`) -/
+theorem parseAllURIParams_schedule_ne_lbug (flags : Nat) (hf : hasFlag flags POptInputEndF = false) (o : Nat)
+    (l : URIParamsLst) (bs : List Buf) (hg : Growing bs) (h0 : ∀ b ∈ bs.head?, plOK b l ∧ o ≤ b.size) :
+    (resumeRun (uriParamsParser flags) o (0, l) bs).2.1 ≠ .lbug := by
+  rw [parseAllURIParams_schedule flags hf o l bs hg h0]
+  refine afa_oneShotRun_verdict _ (· ≠ .lbug) o (0, l) bs ?_ (by afa_ne)
+  intro b hb
+  cases hh : bs.head? with
+  | none => cases bs <;> simp at hh hb
+  | some b0 =>
+    have h1 := h0 b0 (by rw [hh]; rfl)
+    have := afa_growing_size hg hh b hb
+    exact parseAllURIParams_ne_lbug b o l flags h1.1.2 (by have := h1.2; omega)
+
+/-- **… with the end-of-input option at the last call** (hypotheses of `parseAllURIParams_schedule_end`) -/
+theorem parseAllURIParams_schedule_end_ne_lbug (f : Nat) (hf : hasFlag f POptInputEndF = false) (o : Nat)
+    (l : URIParamsLst) (bs : List Buf) (hg : Growing bs) (h0 : ∀ b ∈ bs.head?, plOK b l ∧ o ≤ b.size)
+    (B : Buf) (hB : bs.getLast? = some B) :
+    (resumeRunEnd (uriParamsParser f) (uriParamsParser (f ||| POptInputEndF)) o (0, l) bs).2.1 ≠ .lbug := by
+  rw [parseAllURIParams_schedule_end f hf o l bs hg h0 B hB]
+  cases hh : bs.head? with
+  | none => cases bs <;> simp at hh hB
+  | some b0 =>
+    have h1 := h0 b0 (by rw [hh]; rfl)
+    have := afa_growing_size hg hh B (List.mem_of_getLast? hB)
+    exact parseAllURIParams_ne_lbug B o l _ h1.1.2 (by have := h1.2; omega)
+
+/-- **ParseAllURIHdrs, every chunk schedule (option off)** -/
+theorem parseAllURIHdrs_schedule_ne_lbug (flags : Nat) (hf : hasFlag flags POptInputEndF = false) (o : Nat)
+    (l : URIHdrsLst) (bs : List Buf) (hg : Growing bs) (h0 : ∀ b ∈ bs.head?, hlClean l ∧ o ≤ b.size) :
+    (resumeRun (uriHdrsParser flags) o (0, l) bs).2.1 ≠ .lbug := by
+  rw [parseAllURIHdrs_schedule flags hf o l bs hg h0]
+  refine afa_oneShotRun_verdict _ (· ≠ .lbug) o (0, l) bs ?_ (by afa_ne)
+  intro b hb
+  cases hh : bs.head? with
+  | none => cases bs <;> simp at hh hb
+  | some b0 =>
+    have h1 := h0 b0 (by rw [hh]; rfl)
+    have := afa_growing_size hg hh b hb
+    exact parseAllURIHdrs_ne_lbug b o l flags h1.1 (by have := h1.2; omega)
+
+/-- **… with the end-of-input option at the last call** -/
+theorem parseAllURIHdrs_schedule_end_ne_lbug (f : Nat) (hf : hasFlag f POptInputEndF = false) (o : Nat)
+    (l : URIHdrsLst) (bs : List Buf) (hg : Growing bs) (h0 : ∀ b ∈ bs.head?, hlClean l ∧ o ≤ b.size)
+    (B : Buf) (hB : bs.getLast? = some B) :
+    (resumeRunEnd (uriHdrsParser f) (uriHdrsParser (f ||| POptInputEndF)) o (0, l) bs).2.1 ≠ .lbug := by
+  rw [parseAllURIHdrs_schedule_end f hf o l bs hg h0 B hB]
+  cases hh : bs.head? with
+  | none => cases bs <;> simp at hh hB
+  | some b0 =>
+    have h1 := h0 b0 (by rw [hh]; rfl)
+    have := afa_growing_size hg hh B (List.mem_of_getLast? hB)
+    exact parseAllURIHdrs_ne_lbug B o l _ h1.1 (by have := h1.2; omega)
 
 /-! ### new / Init / Reset objects qualify -/
 
